@@ -1870,6 +1870,14 @@ Octagonal_Shape<T>::max_min(const Linear_Expression& expr,
       return true;
     }
   }
+  else if (expr.all_homogeneous_terms_are_zero()) {
+    // A constant expression is bounded on the universe octagon too.
+    ext_n = expr.inhomogeneous_term();
+    ext_d = 1;
+    included = true;
+    g = point();
+    return true;
+  }
   // The `expr' is unbounded.
   return false;
 }
